@@ -22,6 +22,7 @@ PID = 'C06'
 
 META = {
     'level': 'exploration',
+    'fork_batches': True,       # each batch runs in a forked child of the pool worker (bounded memory)
     'runs': {'quick': 40000, 'thorough': 3000000},
     'batch': {'quick': 400, 'thorough': 4000},
     'wall_cap': {'quick': 600, 'thorough': 3000},
